@@ -4,6 +4,9 @@ The AST is the one spec/Scopes/Scopes.tla reads (statement records with field k)
   label  [name, oid, hasBody, body]    braces [sid, body]       const [name, oid]
   use    [path, oids]  (one oid per path segment, `super` included)   if0 [body]   import [file, sid]
   ifelse [c, then, else]   `.if c {..} else {..}` with c in {0, 1}: the branch that is not taken holds uses and macro calls only
+  import [file, sid, mode, name, oid, items, block]: mode all `.import * from f`, ns `.import * as name from f`,
+         sel `.import a as x, b from f` (items [name, oid, alias, aoid]); block: constants of `{ .const P = 1 }`
+  a use with "interp": true is rendered inside a string: `.text "{path}"`
   macrodef [name, oid, params, poids, body]  (body: uses of the parameters)      macrocall [name, oid, args] (literal arguments)
 Rendering is data: every identifier occurrence gets an oid and a position (file, line, col, len).
 Nothing in here knows how names resolve; programs that do not build are discarded by the caller.
@@ -77,6 +80,7 @@ class Gen:
                 scope = st.pop("scope")
                 st["path"] = self.some_path(scope, extra_defs)
                 st["oids"] = [self.new_oid() for p in st["path"]]          # `super` segments are occurrences too
+                st["interp"] = self.r.random() < 0.2
             elif st["k"] in ("label", "braces", "if0"):
                 self.fill_uses(st["body"], extra_defs)
             elif st["k"] == "ifelse":
@@ -141,7 +145,23 @@ class Gen:
             inc = [s for s in inc if s["k"] == "use" or s.get("name") not in taken]     # importing onto an existing symbol is an error
             inc_defs = [d for d in inc_defs if d[1] not in taken]
             self.sid += 1
-            main = [{"k": "import", "file": "inc.asm", "sid": "$imp%d" % self.sid}] + main
+            imp = {"k": "import", "file": "inc.asm", "sid": "$imp%d" % self.sid, "mode": "all", "name": "", "oid": 0, "items": [], "block": []}
+            mode = self.r.choice(["all", "all", "ns", "sel", "sel"])
+            tops = [st for st in inc if st["k"] in ("label", "const")]
+            if mode == "ns" and tops:
+                imp.update(mode="ns", name="m", oid=self.new_oid())
+                inc_defs = [(("m",), st["name"]) for st in tops]
+            elif mode == "sel" and tops:
+                imp["mode"] = "sel"
+                inc_defs = []
+                for st, al in zip(tops, ["x", "y", ""]):
+                    alias = al if self.r.random() < 0.6 else ""
+                    imp["items"].append({"name": st["name"], "oid": self.new_oid(), "alias": alias, "aoid": self.new_oid() if alias else 0})
+                    inc_defs.append(((), alias or st["name"]))
+                if self.r.random() < 0.5:
+                    imp["block"] = [{"k": "const", "name": "P", "oid": self.new_oid()}]
+                    inc.append({"k": "use", "path": ["P"], "oids": [self.new_oid()]})
+            main = [imp] + main
         self.fill_uses(main, inc_defs)
         return main, inc
 
@@ -191,15 +211,41 @@ def render(prog, fname, occ, indent=0, lines=None):
             occ[st["oid"]] = {"f": fname, "line": len(lines), "col": len(pad), "len": len(st["name"]), "name": st["name"], "def": False}
             lines.append(pad + st["name"] + "(" + ", ".join(str(a) for a in st["args"]) + ")")
         elif k == "use":
-            col = len(pad) + 6
+            col = len(pad) + (8 if st.get("interp") else 6)
             for seg, oid in zip(st["path"], st["oids"]):
                 if oid:
                     occ[oid] = {"f": fname, "line": len(lines), "col": col, "len": len(seg), "name": seg, "def": False}
                 col += len(seg) + 1
             path = ".".join(st["path"])
-            lines.append(pad + ".word " + path + "  // " + path + ' "' + st["path"][-1] + '"')
+            if st.get("interp"):
+                lines.append(pad + '.text "{' + path + '}"  // ' + path)
+            else:
+                lines.append(pad + ".word " + path + "  // " + path + ' "' + st["path"][-1] + '"')
         elif k == "import":
-            lines.append(pad + '.import * from "%s"' % st["file"])
+            mode = st.get("mode", "all")
+            if mode == "ns":
+                occ[st["oid"]] = {"f": fname, "line": len(lines), "col": len(pad) + 13, "len": len(st["name"]), "name": st["name"], "def": False}
+                text = pad + ".import * as " + st["name"]
+            elif mode == "sel":
+                text = pad + ".import "
+                for j, it in enumerate(st["items"]):
+                    if j:
+                        text += ", "
+                    occ[it["oid"]] = {"f": fname, "line": len(lines), "col": len(text), "len": len(it["name"]), "name": it["name"], "def": False}
+                    text += it["name"]
+                    if it["alias"]:
+                        text += " as "
+                        occ[it["aoid"]] = {"f": fname, "line": len(lines), "col": len(text), "len": len(it["alias"]), "name": it["alias"], "def": False}
+                        text += it["alias"]
+            else:
+                text = pad + ".import *"
+            text += ' from "%s"' % st["file"]
+            if st.get("block"):
+                lines.append(text + " {")
+                render(st["block"], fname, occ, indent + 1, lines)
+                lines.append(pad + "}")
+            else:
+                lines.append(text)
     return lines
 
 
@@ -208,6 +254,11 @@ def tla_ready(prog):
     out = []
     for st in prog:
         s = dict(st)
+        s.pop("interp", None)
+        if s["k"] == "import":
+            for f_, d_ in (("mode", "all"), ("name", ""), ("oid", 0), ("items", []), ("block", [])):
+                s.setdefault(f_, d_)
+            s["block"] = tla_ready(s["block"])
         for b in ("body", "then", "else"):
             if b in s:
                 s[b] = tla_ready(s[b])
